@@ -7,8 +7,9 @@ LEAN_TARGETS = ['TxV.Props.C10']
 PROP_MODULES = ['TxV.Props.C10']
 AUDIT = 'Audit/C10.lean'
 ANCHORS = ['txtorcon/torconfig.py', 'txtorcon/torcontrolprotocol.py']
-RULE = ('real TorConfig bootstrapped over the real protocol against the fake Tor\'s store (options of types LineList, Integer, Boolean, String, '
-        'TimeInterval; random initial values and config/defaults): 1..25 operations drawn adaptively from attribute assignment, in-place list '
+RULE = ('real TorConfig bootstrapped over the real protocol against the fake Tor\'s store (a fixed table of LineList/Integer/Boolean/String/'
+        'TimeInterval options, or a table drawn from a pool covering every declared type incl. port lists, comma lists, Boolean+Auto, Float, '
+        'DataSize, Filename; random initial values and config/defaults): 1..25 operations drawn adaptively from attribute assignment, in-place list '
         'operations (append/extend/insert/remove/pop/setitem), save, and Tor\'s acknowledgement or rejection of the oldest outstanding SETCONF '
         '(so changes are also made while a save is in flight); after every operation: SETCONF pairs on the wire (parsed by the kvline oracle), '
         'outcome of save(), needs_save(), every attribute read and the fake Tor\'s store. A second stream edits a list in place while an '
@@ -41,23 +42,16 @@ def corpus():
 def gen_cases(rng, tier):
     n = 250 if tier == 'quick' else 10000
     for k in range(n):
-        store, defaults = cfgprop.gen_store(rng)
+        options = None if k % 3 == 0 else cfgprop.gen_table(rng)
+        store, defaults = cfgprop.gen_store(rng, options)
         aliasing = (k % 10 == 9)
-        c = cfgprop.gen_ops(rng, store, defaults, n_ops=rng.choice([6, 12, 25]), conf_events=False, aliasing=aliasing)
+        c = cfgprop.gen_ops(rng, store, defaults, n_ops=rng.choice([6, 12, 25]), conf_events=False, aliasing=aliasing, options=options)
         c['in_h'] = not aliasing
         yield c
 
 
 def classify(r):
-    if r.corr_ok is False:
-        return None
-    # an emptied list: the property asks for a request to clear the option; nothing is sent for it (and from then on
-    # Tor's store and the view disagree about that option)
-    for pairs in r.spec['setconfs']:
-        for p in pairs:
-            if p[1] == '' and p[0] in cfg.LISTS and sum(1 for q in pairs if q[0] == p[0]) == 1:
-                return 'C10-emptied-list-not-cleared'
-    return None
+    return cfgprop.classify_known(r, PROP, run_cases.project)
 
 
 if __name__ == '__main__':
